@@ -111,6 +111,8 @@ def _selftest(thorough):
 
 def run(ctx: core.Ctx) -> None:
     cfgs = sorted(configs(ctx.tier), key=weight, reverse=True)
+    for c in cfgs:
+        c["max_seconds"] = 3000 if ctx.tier == "thorough" else 240
     results = []
     with core.pool(need_sedpack=False) as ex:
         st = ex.submit(_selftest, ctx.tier == "thorough")
